@@ -80,6 +80,8 @@ struct upipe_genaux {
     unsigned int max_urefs;
     /** list of blockers (used during urequest) */
     struct uchain blockers;
+    /** true if the pipe holds a reference on itself while urefs are buffered */
+    bool buffered;
 
     /** get attr */
     int (*getattr) (struct uref *, uint64_t *);
@@ -161,7 +163,11 @@ static void upipe_genaux_input(struct upipe *upipe, struct uref *uref,
         upipe_genaux_block_input(upipe, upump_p);
         /* Increment upipe refcount to avoid disappearing before all packets
          * have been sent. */
-        upipe_use(upipe);
+        struct upipe_genaux *upipe_genaux = upipe_genaux_from_upipe(upipe);
+        if (!upipe_genaux->buffered) {
+            upipe_genaux->buffered = true;
+            upipe_use(upipe);
+        }
     }
 }
 
@@ -180,14 +186,20 @@ static int upipe_genaux_check(struct upipe *upipe, struct uref *flow_format)
     if (upipe_genaux->flow_def == NULL)
         return UBASE_ERR_NONE;
 
-    bool was_buffered = !upipe_genaux_check_input(upipe);
+    /* The ubuf manager provider may answer from inside
+     * upipe_genaux_output_input (a buffered flow definition renews the
+     * request), which runs this function again: keep the pipe until we are
+     * done, and release the reference of upipe_genaux_input only once. */
+    upipe_use(upipe);
     upipe_genaux_output_input(upipe);
     upipe_genaux_unblock_input(upipe);
-    if (was_buffered && upipe_genaux_check_input(upipe)) {
+    if (upipe_genaux->buffered && upipe_genaux_check_input(upipe)) {
         /* All packets have been output, release again the pipe that has been
          * used in @ref upipe_genaux_input. */
+        upipe_genaux->buffered = false;
         upipe_release(upipe);
     }
+    upipe_release(upipe);
     return UBASE_ERR_NONE;
 }
 
@@ -315,6 +327,7 @@ static struct upipe *upipe_genaux_alloc(struct upipe_mgr *mgr,
     upipe_genaux_init_ubuf_mgr(upipe);
     upipe_genaux_init_output(upipe);
     upipe_genaux_init_input(upipe);
+    upipe_genaux->buffered = false;
     upipe_genaux->getattr = uref_clock_get_cr_sys;
     upipe_throw_ready(upipe);
     return upipe;
